@@ -39,6 +39,9 @@ func Unresolvable(kind string) bool {
 type WPlusCase struct {
 	FlattenCase
 	Kinds []string `json:"kinds,omitempty"`
+	// RawRoot, when set, is served as the root document instead of the serialisation of Root
+	// (byte-level fuzzing: duplicate keys, odd numbers, key order are preserved).
+	RawRoot string `json:"rawRoot,omitempty"`
 }
 
 func holderPath(root O, i int, ref O) {
